@@ -536,4 +536,37 @@ theorem sim_applyOp {rm s s'} (h : Aged rm s s') (op : Op) (hk : keepB rm (opTar
     simp only [dif_neg hgu, dif_neg hgu']
     exact ⟨trivial, h⟩
 
+
+/-! ### `_abort_flow` on an instance the clean-up may discard -/
+
+/-- **deactivating an instance the clean-up may discard does nothing**: `_abort_flow(state, c, deactivate_flow=True)` on a done,
+    non-activated instance returns at the status guard without touching the state.  (This is why the extra iterations of the
+    live run over children that the aged run no longer lists are harmless.) -/
+theorem abortFlow_done_noop (fuel : Nat) (c : FUid) (scores : List Score) (s : VM) (x : InstX) (i : Inst)
+    (hx : OMap.lookup c s.r.fx = some x) (ha : x.activated = 0)
+    (hi : findInst s.ixs.ix c = some i) (hd : i.status.done = true) :
+    abortFlow (fuel + 1) c scores true s = .ok () s := by
+  have hira : isReferenceActivated c s = .ok false s := by
+    unfold isReferenceActivated getInstX getInstX?
+    simp only [bind, EStateM.bind, getRest, get, getThe, MonadStateOf.get, EStateM.get, pure, EStateM.pure, hx]
+    cases x.parentUid with
+    | none => rfl
+    | some p => simp [ha, EStateM.pure]
+  have hgi : getInst c s = .ok i s := by
+    unfold getInst getInst?
+    simp only [bind, EStateM.bind, getIx, get, getThe, MonadStateOf.get, EStateM.get, pure, EStateM.pure, hi]
+  have hst : i.status.listening = false ∧ ¬ i.status = .stopping := by
+    cases hs : i.status <;> simp [hs, FlowStatus.done, FlowStatus.listening] at hd ⊢
+  unfold abortFlow
+  simp only [bind, EStateM.bind, hira, Bool.true_and, pure]
+  show EStateM.bind (getInst c) _ s = _
+  unfold EStateM.bind
+  rw [hgi]
+  dsimp only
+  have hstB : (!i.status.listening && decide (i.status ≠ .stopping)) = true := by simp [hst]
+  rw [hst.1]
+  have hn : decide (i.status ≠ FlowStatus.stopping) = true := by simp [hst.2]
+  rw [hn]
+  rfl
+
 end NemoVerif.C11.Bisim
